@@ -50,14 +50,24 @@ var alphaShrinkDeep = []uint8{opReturn, opDrawBool, opDrawSmall, opErrorf, opFat
 
 // H_C05_accept: one step of the real shrinker.accept from any state a run can produce.
 func H_C05_accept() {
+	alpha := alphaShrink
+	if thorough() {
+		alpha = alphaShrinkDeep
+	}
+	acceptStep(alpha)
+}
+
+var alphaShrinkCallbacks = []uint8{opReturn, opDrawBool, opIfBit, opErrorf, opFatalA, opSkip, opCleanupFailA, opCleanupFailB}
+
+// H_C05_acceptCallbacks: the same step for properties whose failures are raised inside cleanup
+// functions (two different cleanup functions = two failure sites).
+func H_C05_acceptCallbacks() { acceptStep(alphaShrinkCallbacks) }
+
+func acceptStep(alpha []uint8) {
 	k := 4
 	L := 3
 	if thorough() {
 		L = 4
-	}
-	alpha := alphaShrink
-	if thorough() {
-		alpha = alphaShrinkDeep
 	}
 	p := newVProg("p", k, 0, alpha, nil)
 	tb := newVTB("S")
@@ -73,6 +83,12 @@ func H_C05_accept() {
 	old := append([]uint64(nil), rec.data...)
 	s := &shrinker{tb: tb, rec: rec, err: err0, prop: p.prop, tries: map[string]int{}, cache: map[string]struct{}{}}
 
+	// the step starts from any point of a minimisation run: the counters a shrinker accumulates
+	// over its history are arbitrary
+	s.shrinks = nondetInt("history.shrinks")
+	assume(bAnd(s.shrinks >= 0, s.shrinks < 1<<40))
+	s.hits = nondetInt("history.hits")
+	assume(bAnd(s.hits >= 0, s.hits < 1<<40))
 	buf := symSlice("c", L)
 	// what the candidate does on its own: does it fail, and at the same site?
 	errC := checkOnce(newT(tb, newBufBitStream(append([]uint64(nil), buf...), false), false, nil), p.prop)
